@@ -451,9 +451,9 @@ func runBoundedCase(r *vcore.Run, a *acc, s *sysT, p, U *big.Int, nondet bool, m
 	a.count("cmp.bounded.inputs."+exp.class, 1)
 	res := c.honest()
 	if exp.kind == kExact {
-		r.SampleClass("cmp.bounded/honest-exact", map[string]any{"system": s.String(), "a": av.String(), "b": bv.String(), "outputs": vstr(res.outs)})
+		a.sample("cmp.bounded/honest-exact", map[string]any{"system": s.String(), "a": av.String(), "b": bv.String(), "outputs": vstr(res.outs)})
 	} else if exp.kind == kUnsat {
-		r.SampleClass("cmp.bounded/out-of-domain-rejected", map[string]any{"system": s.String(), "a": av.String(), "b": bv.String(), "class": exp.class, "solver_said": errStr(res.err)})
+		a.sample("cmp.bounded/out-of-domain-rejected", map[string]any{"system": s.String(), "a": av.String(), "b": bv.String(), "class": exp.class, "solver_said": errStr(res.err)})
 	}
 	a.count("cmp.bounded.expect."+[...]string{"exact", "no-proof", "no-proof-or-listed", "undefined"}[exp.kind], 1)
 	if doLies {
@@ -505,7 +505,7 @@ func boundedTinyJobs(r *vcore.Run) []job {
 									map[string]any{"field": "tinyfield", "absDiffUpp": u, "allowNonDet": nondet, "error": firstLine(err)})
 							} else {
 								a.count("cmp.bounded.constructor-panics-as-documented", 1)
-								r.SampleClass("cmp.bounded/constructor-panic", map[string]any{"field": "tinyfield", "absDiffUpp": u, "allowNonDet": nondet, "error": firstLine(err)})
+								a.sample("cmp.bounded/constructor-panic", map[string]any{"field": "tinyfield", "absDiffUpp": u, "allowNonDet": nondet, "error": firstLine(err)})
 							}
 							continue
 						}
@@ -782,7 +782,7 @@ func runGenericCase(r *vcore.Run, a *acc, s *sysT, fam string, in []*big.Int, ex
 	c := newCase(r, a, s, fam, in, exp)
 	res := c.honest()
 	if exp.kind == kExact {
-		r.SampleClass(fam+"/honest-exact", map[string]any{"system": s.String(), "inputs": vstr(in), "outputs": vstr(res.outs)})
+		a.sample("cmp.generic/honest-exact", map[string]any{"system": s.String(), "inputs": vstr(in), "outputs": vstr(res.outs)})
 	}
 	c.confirm()
 	if doLies {
